@@ -120,3 +120,90 @@ pub proof fn lemma_of3_single(r: SolverResult, n: u64)
     if r == SolverResult::True { assert(any3(s, SolverResult::True)); }
     if r == SolverResult::False { assert(any3(s, SolverResult::False)); }
 }
+
+// ---- C17: the order of operands never decides whether and/or is true
+// s2 is s1 reordered by the index map f (f is onto, so every operand is still there)
+pub open spec fn covers(f: Seq<int>, j: int) -> bool { exists|i: int| 0 <= i < f.len() && #[trigger] f[i] == j }
+pub open spec fn reordering(s1: Seq<SolverResult>, s2: Seq<SolverResult>, f: Seq<int>) -> bool {
+    s1.len() == s2.len() && s2.len() == f.len()
+    && (forall|i: int| 0 <= i < f.len() ==> 0 <= #[trigger] f[i] < s1.len() && s2[i] == s1[f[i]])
+    && (forall|j: int| 0 <= j < s1.len() ==> #[trigger] covers(f, j))
+}
+
+pub proof fn lemma_reorder_same_values(s1: Seq<SolverResult>, s2: Seq<SolverResult>, f: Seq<int>, r: SolverResult)
+    requires reordering(s1, s2, f),
+    ensures any3(s1, r) == any3(s2, r),
+{
+    if any3(s1, r) {
+        let j = choose|j: int| 0 <= j < s1.len() && s1[j] == r;
+        assert(covers(f, j));
+        let i = choose|i: int| 0 <= i < f.len() && #[trigger] f[i] == j;
+        assert(s2[i] == r);
+    }
+    if any3(s2, r) {
+        let i = choose|i: int| 0 <= i < s2.len() && s2[i] == r;
+        assert(s1[f[i]] == r);
+    }
+}
+
+// 'or' is invariant under any reordering of its operands (all three values)
+pub proof fn lemma_or3_reorder(s1: Seq<SolverResult>, s2: Seq<SolverResult>, f: Seq<int>)
+    requires reordering(s1, s2, f),
+    ensures or3(s2) == or3(s1),   // P:C17
+{
+    lemma_reorder_same_values(s1, s2, f, SolverResult::True);
+    lemma_reorder_same_values(s1, s2, f, SolverResult::False);
+}
+
+// whether 'and' / all(..) is TRUE is invariant under any reordering (which non-true value it yields is not)
+pub proof fn lemma_and3_truth_reorder(s1: Seq<SolverResult>, s2: Seq<SolverResult>, f: Seq<int>)
+    requires reordering(s1, s2, f),
+    ensures (and3(s2) == SolverResult::True) == (and3(s1) == SolverResult::True),   // P:C17
+{
+    lemma_and3_true_iff(s1);
+    lemma_and3_true_iff(s2);
+    if forall|j: int| 0 <= j < s1.len() ==> s1[j] == SolverResult::True {
+        assert forall|i: int| 0 <= i < s2.len() implies s2[i] == SolverResult::True by { assert(s2[i] == s1[f[i]]); }
+    }
+    if forall|i: int| 0 <= i < s2.len() ==> s2[i] == SolverResult::True {
+        assert forall|j: int| 0 <= j < s1.len() implies s1[j] == SolverResult::True by {
+            assert(covers(f, j));
+            let i = choose|i: int| 0 <= i < f.len() && #[trigger] f[i] == j;
+            assert(s2[i] == s1[j]);
+        }
+    }
+}
+
+pub proof fn lemma_binary_commute(a: SolverResult, b: SolverResult)
+    ensures
+        or2(a, b) == or2(b, a),   // P:C17
+        (and2(a, b) == SolverResult::True) == (and2(b, a) == SolverResult::True),   // P:C17
+{
+}
+
+// of(.., 0) ("none true") is order-free as well
+pub proof fn lemma_of0_reorder(s1: Seq<SolverResult>, s2: Seq<SolverResult>, f: Seq<int>)
+    requires reordering(s1, s2, f),
+    ensures of3(s2, 0) == of3(s1, 0),
+{
+    lemma_reorder_same_values(s1, s2, f, SolverResult::True);
+    lemma_reorder_same_values(s1, s2, f, SolverResult::False);
+}
+
+// ---- C06: the tables as the statement words them
+pub proof fn lemma_tables_as_stated(s: Seq<SolverResult>, n: u64)
+    ensures
+        // or: true if any operand is true, else false if any is false, else missing
+        (or3(s) == SolverResult::True) == any3(s, SolverResult::True),   // P:C06
+        (or3(s) == SolverResult::False) == (!any3(s, SolverResult::True) && any3(s, SolverResult::False)),   // P:C06
+        // and / all: true exactly when every operand is true
+        (and3(s) == SolverResult::True) == (forall|j: int| 0 <= j < s.len() ==> s[j] == SolverResult::True),   // P:C06
+        // of(n >= 1): true exactly when at least n operands are true;  of(0): none is true
+        n >= 1 ==> ((of3(s, n) == SolverResult::True) == (count_true(s) >= n)),   // P:C06,C08
+        (of3(s, 0) != SolverResult::False) == !any3(s, SolverResult::True),   // P:C06,C08
+        // not: swaps true and false, missing becomes false
+        not3(SolverResult::True) == SolverResult::False && not3(SolverResult::False) == SolverResult::True
+            && not3(SolverResult::Missing) == SolverResult::False,   // P:C06
+{
+    lemma_and3_true_iff(s);
+}
